@@ -502,11 +502,13 @@ class Run:
             self.expect.append(("plain", "ok", None))
 
 
-def one_case(R, p, c, l, flavor, b0, b, mode, rems, bdesc):
+def one_case(R, p, c, l, flavor, b0, b, mode, rems, bdesc, patches=None):
     """build the real facade, evaluate everything reflectively, queue the model op; direct search on the way"""
     ctx = R.ctx
     where = {"platform": p["name"], "cfg": c["version"], "log": l["version"], "flavor": flavor, "block": bdesc,
              "block0_hex": b0.hex(), "block_hex": b.hex(), "mode": mode, "rems": rems}
+    if patches is not None:
+        where["patches"] = [[off, seg.hex()] for off, seg in patches]
     f, exc = build(c["file"], l["file"], b0, flavor)
     R.select(p, c, l, flavor)
     i0, i1 = R.block_id(b0), R.block_id(b)
@@ -521,7 +523,15 @@ def one_case(R, p, c, l, flavor, b0, b, mode, rems, bdesc):
         return False
     ctx.hist("construct_outcomes", "ok")
     notes, raised = [], []
-    if b is not b0:
+    if patches is not None:
+        # the block reaches `b` through UPDATES (change notifications run through accessors, sensors, devices, facade):
+        # the facade is a view, so every member must then read as on a facade whose block simply is `b`
+        for off, seg in patches:
+            try:
+                f.spa.struct.replace_status_block_segment(off, seg)
+            except Exception as e:  # noqa
+                notes.append(("replace_status_block_segment", e))
+    elif b is not b0:
         try:
             f.spa.struct.set_status_block(b)
         except Exception as e:  # noqa
@@ -745,6 +755,31 @@ def run(ctx):
         # a block that changes after construction (built on zeros, read on another block)
         if (not ctx.quick or ci % 10 == 0) and built.get("a"):
             one_case(R, p, c, l, "a", zeros, rnd[ci % 3] if ci % 2 else w0, None, None, "zeros-then-swapped")
+    # ---- update histories: unit flip, a temperature word changed, unit flipped back - through replace_status_block_segment
+    hist_n = 0
+    for ci, (p, c, l) in enumerate(cs):
+        if ctx.quick and ci % 12 != 3:
+            continue
+        items = merged_items(c, l)
+        tu = items.get("TempUnits")
+        temps = [it for it in items.values() if it["kind"] == "temp" and it["pos"] + it["len"] <= 1024]
+        if tu is None or not temps:
+            continue
+        w0 = wired_block(c, l, devices_table, 0, rng)
+        cur = int.from_bytes(w0[tu["pos"]:tu["pos"] + tu["len"]], "big")
+        cur = (cur >> tu["bitpos"]) & (tu["mask"] or 1) if tu["bitpos"] is not None else cur
+        b1 = poke(w0, tu, 1 - (cur & 1))
+        b2 = b1
+        for it in temps[:3]:
+            b2 = poke(b2, it, rng.choice([540, 684, 720, 1000]))
+        b3 = poke(b2, tu, cur & 1)
+        steps = [(0, b1), (0, b2), (0, b3)]
+        for k in (1, 2, 3):
+            final = steps[k - 1][1]
+            if one_case(R, p, c, l, "a", w0, final, None, None, f"wired-then-{k}-updates", patches=steps[:k]) is False:
+                break
+            hist_n += 1
+    ctx.cov["update_history_cases"] = hist_n
     ctx.cov["impl_seconds"] = round(time.time() - t0, 1)
     t1 = time.time()
     compare(R)
@@ -799,7 +834,13 @@ def replay(inp):
     if "member" not in inp:
         return False, "constructed"
     notes, raised = [], []
-    if b != b0:
+    if inp.get("patches") is not None:
+        for off, seg in inp["patches"]:
+            try:
+                f.spa.struct.replace_status_block_segment(off, bytes.fromhex(seg))
+            except Exception as e:  # noqa
+                notes.append(("replace_status_block_segment", e))
+    elif b != b0:
         f.spa.struct.set_status_block(b)
     if "old_mode" in inp:
         f.water_care.active_mode = inp["old_mode"]
